@@ -66,3 +66,12 @@ Section Equiv.
     destruct (k =? 0)%nat eqn:E; [left; apply Nat.eqb_eq; exact E|right; reflexivity].
   Qed.
 End Equiv.
+
+Lemma stride_placement_ok :
+  (forall k, stride_first k = true -> k = 0%nat \/ stride_ret k = true)
+  /\ (forall n k, any_stride_first n k = true -> k = 0%nat \/ any_stride_ret n k = true)
+  /\ (forall c pols, group_body c pols = group_rules_gen stride_ret stride_first c 0 pols)
+  /\ (forall c pols, group_body c pols = group_rules_gen (any_stride_ret 5) (any_stride_first 5) c 0 pols).
+Proof.
+  split; [exact stride_first_ok|]. split; [exact any_stride_ok|]. split; reflexivity.
+Qed.
